@@ -32,6 +32,11 @@ type oracle struct {
 	committedTxns []committedTxn
 	lastCleanupTs uint64
 	intentTable   map[uint64]uint64 // key hash -> latest commit ts
+	// activeReads counts the transactions still reading at each read timestamp.
+	// readMark alone cannot protect a reader whose timestamp equals its current
+	// doneUntil (the watermark only tracks indices above doneUntil), so conflict
+	// history is never pruned above the smallest active read timestamp.
+	activeReads map[uint64]int
 
 	// closer is used to stop watermarks.
 	closer *utils.Closer
@@ -63,6 +68,7 @@ func newOracle(opt Options) *oracle {
 	orc := &oracle{
 		detectConflicts: opt.DetectConflicts,
 		intentTable:     make(map[uint64]uint64),
+		activeReads:     make(map[uint64]int),
 		// We're not initializing nextTxnTs and readOnlyTs. It would be done after replay in Open.
 		//
 		// WaterMarks must be 64-bit aligned for atomic package, hence we must use pointers here.
@@ -128,6 +134,13 @@ func (o *oracle) txnMetricsSnapshot() metrics.TxnMetrics {
 }
 
 func (o *oracle) readTs() uint64 {
+	// Pick the read timestamp and register it with readMark under the oracle
+	// lock: newCommitTs issues a commit timestamp and registers it with txnMark
+	// under the same lock, so every timestamp <= readTs is already tracked by
+	// txnMark (WaitForMark below really waits for it), and
+	// cleanupCommittedTransactions cannot prune conflict history that this
+	// transaction still needs between the two steps.
+	o.Lock()
 	readTs := o.nextTxnTs.Load() - 1
 	utils.VerifYield("orc.readts.after-next")
 	if last := o.txnMark.LastIndex(); last < readTs {
@@ -135,6 +148,8 @@ func (o *oracle) readTs() uint64 {
 	}
 	utils.VerifYield("orc.readts.after-last")
 	o.readMark.Begin(readTs)
+	o.activeReads[readTs]++
+	o.Unlock()
 
 	// Wait for all txns which have no conflicts, have been assigned a commit
 	// timestamp and are going through the write to value log and LSM tree
@@ -186,7 +201,7 @@ func (o *oracle) newCommitTs(txn *Txn) (uint64, bool) {
 		return 0, true
 	}
 
-	o.doneRead(txn)
+	o.doneReadLocked(txn)
 	o.cleanupCommittedTransactions()
 
 	// This is the general case, when user doesn't specify the read and commit ts.
@@ -216,9 +231,21 @@ func (o *oracle) newCommitTs(txn *Txn) (uint64, bool) {
 }
 
 func (o *oracle) doneRead(txn *Txn) {
+	o.Lock()
+	o.doneReadLocked(txn)
+	o.Unlock()
+}
+
+// doneReadLocked must be called while having a lock.
+func (o *oracle) doneReadLocked(txn *Txn) {
 	if !txn.doneRead {
 		txn.doneRead = true
 		o.readMark.Done(txn.readTs)
+		if n := o.activeReads[txn.readTs]; n <= 1 {
+			delete(o.activeReads, txn.readTs)
+		} else {
+			o.activeReads[txn.readTs] = n - 1
+		}
 	}
 }
 
@@ -230,8 +257,15 @@ func (o *oracle) cleanupCommittedTransactions() { // Must be called under o.Lock
 	}
 	// Same logic as discardAtOrBelow but unlocked
 	maxReadTs := o.readMark.DoneUntil()
-
-	utils.AssertTrue(maxReadTs >= o.lastCleanupTs)
+	for ts := range o.activeReads {
+		// A transaction still reading at ts needs every commit above ts.
+		if ts < maxReadTs {
+			maxReadTs = ts
+		}
+	}
+	if maxReadTs < o.lastCleanupTs {
+		return
+	}
 
 	// do not run clean up if the maxReadTs (read timestamp of the
 	// oldest transaction that is still in flight) has not increased
